@@ -16,6 +16,7 @@ func init() {
 
 func c07(c *q.Ctx) {
 	permTree(c)
+	aclValidators(c)
 	const st = "bcs/ledger/xledger/state::"
 	const th = "bcs/ledger/xledger/state/utxo/txhash::"
 	const au = "kernel/permission/acl/utils::"
